@@ -474,12 +474,14 @@ class Alg:
                 else:
                     self.env[t.id] = self.ev(stmt.value)
                 return True
-            if isinstance(t, ast.Tuple) and isinstance(stmt.value, ast.Tuple) and len(t.elts) == len(stmt.value.elts):
+            if isinstance(t, ast.Tuple) and isinstance(stmt.value, ast.Tuple) and len(t.elts) == len(stmt.value.elts) \
+                    and all(isinstance(tt, ast.Name) or (isinstance(tt, ast.Attribute) and attr_chain(tt)) for tt in t.elts):
                 vals = [self.ev(v) for v in stmt.value.elts]
                 for tt, v in zip(t.elts, vals):
-                    if not isinstance(tt, ast.Name):
-                        return False
-                    self.env[tt.id] = v
+                    if isinstance(tt, ast.Name):
+                        self.env[tt.id] = v
+                    else:
+                        self.env_attr(".".join(attr_chain(tt)), v)
                 return True
             if isinstance(t, ast.Attribute):
                 ch = attr_chain(t)
